@@ -292,7 +292,7 @@ RULE_ADDENDA = {
     "C14": "all queries of a field also run through ONE handle, each result list being read only after the following search was issued",
     "C15": "every merged file is decoded with the independent reader and its vector envelope (id table, optimisation type, index bytes) compared with the survivors",
     "C16": "40 % of search actions defer reading their result list until after the next search on that handle (or its Close)",
-    "C17": "35 % of cases pre-create the destination as an empty file; outputs <= 32 KiB are also written to a FIFO destination, where every write succeeds and the final sync fails",
+    "C17": "35 % of cases pre-create the destination as an empty file; outputs <= 256 KiB are also written to a FIFO destination (drained in the background), where every write succeeds and the final sync fails",
     "C18": "40 % of cases use doc-value chunks of 1..3 documents; every attempt has a destination directory of its own which must be empty after an error and hold only the destination after success; chunk modes 1027 and 70000 with the channel open and closed before the call",
     "C19": "35 % of merge scenarios pre-create the destination as an empty file; every merge fault is repeated with the close channel closed when the failing call is entered; the destination directory must be empty after a failed merge",
     "C20": "sequences also use the held segment as input of public Merge calls that succeed, are cancelled before the call or cannot create their destination (count unchanged); a goroutine blocked >= 1 minute on a lock taken inside zapx is reported as a leaked lock",
@@ -308,7 +308,7 @@ RULE_ADDENDA_4 = {
     "C12": "every pair of equal-length terms is looked up through one key buffer overwritten in place",
     "C15": "for outputs with >= 1000 surviving vectors the survivors are also built directly and both index blobs must probe the same number of clusters",
     "C16": "cache-stress starts with 25 (thorough 150) cold-start rounds: unfiltered and filtered first searches of every field released by a barrier on a freshly opened copy",
-    "C18": "outputs <= 32 KiB are also merged to a FIFO destination (sync fails) with the channel closed at reports {W, W-1, W-2, W/2, 1, never}",
+    "C18": "outputs <= 256 KiB are also merged to a FIFO destination (sync fails) with the channel closed at reports {W, W-1, W-2, W/2, 1, never}",
     "C20": "operation K merges the held segment with a second one, cancelled at every progress report, reading the held segment after each; in-memory: after closing a 3000-document in-memory segment two small ones are built and read (A, B, A)",
 }
 for _k, _v in RULE_ADDENDA_4.items():
